@@ -26,7 +26,7 @@ package datamodel
 //@ pure func vlink(v Val) Link
 //@ pure func isrec(v Val) bool = vkind(v) == Kind_Map || vkind(v) == Kind_List
 
-//@ axiom vlen_nonneg: forall v Val :: vlen(v) >= 0
+//@ axiom vlen_nonneg: forall v Val :: vlen(v) >= 0 && vlen(v) <= 1099511627776
 //@ axiom vkey_is_string: forall v Val, i mathint :: vkind(v) == Kind_Map && 0 <= i && i < vlen(v) ==> vkind(vkey(v, i)) == Kind_String && vstr(vkey(v, i)) == vkeystr(v, i)
 //@ axiom vidx_sound: forall v Val, k string :: 0 <= vidx(v, k) && vidx(v, k) < vlen(v) ==> vkeystr(v, vidx(v, k)) == k
 //@ axiom vidx_complete: forall v Val, i mathint :: vkind(v) == Kind_Map && 0 <= i && i < vlen(v) ==> vidx(v, vkeystr(v, i)) == i
@@ -134,6 +134,7 @@ package datamodel
 //@   ensures err == nil ==> k != nil && v != nil && k.val == vkey(recv.src, old(recv.pos)) && v.val == vchild(recv.src, old(recv.pos))
 //@   ensures err != nil ==> recv.pos == old(recv.pos)
 //@   ensures old(recv.pos) >= vlen(recv.src) ==> err != nil
+//@   ensures 0 <= old(recv.pos) && old(recv.pos) < vlen(recv.src) ==> err == nil
 
 //@ interface MapIterator.Done() (d)
 //@   assigns nothing
@@ -147,6 +148,7 @@ package datamodel
 //@   ensures err == nil ==> v != nil && i == old(recv.pos) && v.val == vchild(recv.src, old(recv.pos))
 //@   ensures err != nil ==> recv.pos == old(recv.pos)
 //@   ensures old(recv.pos) >= vlen(recv.src) ==> err != nil
+//@   ensures 0 <= old(recv.pos) && old(recv.pos) < vlen(recv.src) ==> err == nil
 
 //@ interface ListIterator.Done() (d)
 //@   assigns nothing
@@ -273,3 +275,7 @@ package datamodel
 //@   ensures va != nil
 //@ interface ListAssembler.Finish() (err)
 //@   assigns foreign
+
+//@ interface LargeBytesNode.AsLargeBytes() (r, err)
+//@   assigns nothing
+//@   ensures err == nil ==> r != nil
